@@ -54,10 +54,10 @@ impl GraphBlock {
         match self {
             GraphBlock::BulletList(items) => items
                 .iter()
-                .any(|item| item.iter().filter(|block| block.needs_blank_line()).count() > 1),
+                .any(|item| item.iter().skip(1).any(|block| block.needs_blank_line())),
             GraphBlock::OrderedList(items) => items
                 .iter()
-                .any(|item| item.iter().filter(|block| block.needs_blank_line()).count() > 1),
+                .any(|item| item.iter().skip(1).any(|block| block.needs_blank_line())),
             _ => false,
         }
     }
@@ -129,11 +129,14 @@ impl GraphBlock {
             GraphBlock::BulletList(items) => items
                 .iter()
                 .map(|item| {
-                    left_pad_and_prefix(&blocks_to_markdown_and(
-                        item,
-                        self.is_sparce_list(),
-                        options,
-                    ))
+                    let text = blocks_to_markdown_and(item, self.is_sparce_list(), options);
+                    // '- ---' is a rule, not an item that holds a rule: a rule right after the
+                    // bullet is written with another character
+                    if let Some(GraphBlock::HorizontalRule) = item.first() {
+                        left_pad_and_prefix(&text.replacen(&"-".repeat(72), &"*".repeat(72), 1))
+                    } else {
+                        left_pad_and_prefix(&text)
+                    }
                 })
                 .collect::<Vec<String>>()
                 .join(if self.is_sparce_list() { "\n" } else { "" }),
